@@ -8,15 +8,15 @@ OUT=/var/tmp/wt/confirm_${ID}_$K.txt
 cd /repo
 [ -d $WT ] || git worktree add -q --detach $WT HEAD
 cd $WT && git checkout -q -- . 
-[ -d _build ] || cmake -G Ninja -B _build -DCMAKE_BUILD_TYPE=RelWithDebInfo -DMANIFOLD_PAR=OFF -DMANIFOLD_CBIND=ON -DMANIFOLD_TEST=ON -DFETCHCONTENT_SOURCE_DIR_GOOGLETEST=/usr/src/googletest -DFETCHCONTENT_TRY_FIND_PACKAGE_MODE=ALWAYS -DCMAKE_CXX_FLAGS=-Wno-error > /dev/null 2>&1
+[ -d _build ] || cmake -G Ninja -B _build -DCMAKE_BUILD_TYPE=RelWithDebInfo -DMANIFOLD_PAR=${PAR:-OFF} -DMANIFOLD_CBIND=ON -DMANIFOLD_TEST=ON -DFETCHCONTENT_SOURCE_DIR_GOOGLETEST=/usr/src/googletest -DFETCHCONTENT_TRY_FIND_PACKAGE_MODE=ALWAYS -DCMAKE_CXX_FLAGS=-Wno-error > /dev/null 2>&1
 cmake --build _build -j8 > /dev/null 2>&1 || { echo "baseline build failed" >> $OUT; exit 1; }
 LIB=$(ls _build/src/libmanifold.* | head -1)
-g++ -std=c++17 -O1 -DMANIFOLD_PAR=-1 -I include -I src $SRC/demo.cpp $LIB -Wl,-rpath,$WT/_build/src -o /tmp/demo_${ID}_$K 2>> $OUT || { echo "demo build failed (orig)" >> $OUT; }
+g++ -std=c++17 -O1 ${DEMOFLAGS:--DMANIFOLD_PAR=-1} -I include -I src -I bindings/c/include $SRC/demo.cpp $LIB ${DEMOLIBS:-} -Wl,-rpath,$WT/_build/src -Wl,-rpath,$WT/_build/bindings/c -o /tmp/demo_${ID}_$K 2>> $OUT || { echo "demo build failed (orig)" >> $OUT; }
 /tmp/demo_${ID}_$K > /dev/null 2>&1; echo "demo_on_original_exit=$?" >> $OUT
 git apply $SRC/patch.diff || { echo "patch does not apply" >> $OUT; exit 1; }
 cmake --build _build -j8 > /dev/null 2>&1 && echo "build_with_change=ok" >> $OUT || echo "build_with_change=FAILED" >> $OUT
-ctest --test-dir _build -j8 --timeout 900 2>&1 | grep -E "tests passed|tests failed" >> $OUT
-g++ -std=c++17 -O1 -DMANIFOLD_PAR=-1 -I include -I src $SRC/demo.cpp $LIB -Wl,-rpath,$WT/_build/src -o /tmp/demo_${ID}_$K 2>> $OUT
+ctest --test-dir _build -j8 --timeout 1800 2>&1 | grep -E "tests passed|tests failed|\*\*\*Failed|\*\*\*Timeout|Failed  |Timeout " | head -8 >> $OUT
+g++ -std=c++17 -O1 ${DEMOFLAGS:--DMANIFOLD_PAR=-1} -I include -I src -I bindings/c/include $SRC/demo.cpp $LIB ${DEMOLIBS:-} -Wl,-rpath,$WT/_build/src -Wl,-rpath,$WT/_build/bindings/c -o /tmp/demo_${ID}_$K 2>> $OUT
 /tmp/demo_${ID}_$K > /dev/null 2>&1; echo "demo_on_changed_exit=$?" >> $OUT
 git checkout -q -- .
 rm -f /tmp/demo_${ID}_$K
